@@ -808,12 +808,16 @@ func runRobust(nshards int) {
 		restarts := 0
 		deathGroup, deathsInGroup := -1, 0
 		retryJ, retryUnit := -1, -1
+		retryN := 0
 		for {
 			var stderr bytes.Buffer
 			cmd := exec.Command(self, "child", strconv.Itoa(s), strconv.Itoa(nshards), strconv.Itoa(fromJ), strconv.Itoa(fromUnit), outf, inf)
 			cmd.Stderr = &stderr
 			cmd.Stdout = &stderr
-			cmd.Env = append(os.Environ(), "GOTRACEBACK=single")
+			// MALLOC_ARENA_MAX=1: the binary links cgo code; glibc otherwise reserves a 64 MiB arena of
+			// address space per OS thread, and the number of threads depends on machine load - under
+			// RLIMIT_AS that made small requests fail at random (seen once in a thorough run)
+			cmd.Env = append(os.Environ(), "GOTRACEBACK=single", "MALLOC_ARENA_MAX=1")
 			if err := cmd.Start(); err != nil {
 				results[s].incon = "cannot start child: " + err.Error()
 				return
@@ -861,7 +865,16 @@ func runRobust(nshards int) {
 				req, _ := strconv.ParseUint(m[1], 10, 64)
 				d := decoderByName(h.Decoder)
 				attributable := d != nil && strings.Contains(st, "allocLarge") && req > allocBound(d, h.Limit, h.Len)
+				if !attributable && retryJ == h.J && retryUnit == h.Unit && retryN < 3 {
+					// died again in a fresh process, still on a request that is not the input's: once more;
+					// only a third death in a row on this input counts
+					retryN++
+					results[s].unattributed++
+					fromJ, fromUnit = h.J, h.Unit-1
+					continue
+				}
 				if !attributable && !(retryJ == h.J && retryUnit == h.Unit) {
+					retryN = 1
 					retryJ, retryUnit = h.J, h.Unit
 					results[s].unattributed++
 					fromJ, fromUnit = h.J, h.Unit-1
